@@ -9,11 +9,11 @@ from .coqrun import lit
 from .model import esc_bytes
 
 PROBE_TPL = os.path.join(build.GOTOOLS, "fixture", "probe.go.tpl")
-ENVV = {"GV_SET": "from-env", "GV_INT": "42", "GV_BAD": "4x2", "GV_EMPTY": ""}
+ENVV = {"GV_SET": "from-env", "GV_INT": "42", "GV_BAD": "4x2", "GV_EMPTY": "", "GV_Z": "007", "GV_NEG0": "-0", "GV_PLUS": "+5", "GV_BIG": "9223372036854775808", "GV_MIN": "-9223372036854775808"}
 
 
 def esc(x):
-    return esc_bytes(x.encode("utf-8") if isinstance(x, str) else x).decode("ascii")
+    return esc_bytes(x.encode("utf-8", "surrogateescape") if isinstance(x, str) else x).decode("ascii")
 
 
 def canon(d):
@@ -26,7 +26,7 @@ def canon(d):
     if k == "num":
         return "I(%s,%s)" % (d["t"], d["v"])
     if k == "str":
-        return "S(%s)" % esc(d["v"])
+        return "S(%s)" % (esc(bytes.fromhex(d["hex"])) if "hex" in d else esc(d["v"]))
     if k == "obj":
         fields = ",".join("%s=%s" % (n, canon(v)) for n, v in sorted(d["fields"].items()) if canon(v) != "N")
         return "O(%s;[%s];{%s};[%s];#%d)" % (esc(d["origin"]), ",".join(canon(a) for a in d["args"]), fields, ",".join(d["log"]), d["serial"])
@@ -163,7 +163,7 @@ def real_histories(tooldir, specs, obss, histories, race=False, repeat=1, timeou
             for _ in range(repeat):
                 q = subprocess.run([binp, opsf], env=penv, stdout=subprocess.PIPE, stderr=subprocess.PIPE, text=True, timeout=120)
                 lines = []
-                for l in q.stdout.splitlines():
+                for l in q.stdout.split("\n"):
                     try:
                         lines.append(json.loads(l))
                     except ValueError:
